@@ -1,1 +1,128 @@
-fn main() {}
+//! psc-verif: one subcommand per property.
+//!   psc-verif <Cxx> quick|thorough
+//!   psc-verif <Cxx> --replay <file>
+//! Exit 0 = property held on everything explored; 1 = VIOLATION line(s) printed; 2 = inconclusive.
+
+mod c01;
+mod c02;
+mod c03;
+mod common;
+
+use common::*;
+use psc_model::{
+	runner::{install_quiet_panic_hook, run_tape, CheckFn},
+	serde_json::Value,
+	stats::*,
+};
+
+fn tape_checks<'a>(ctx: &'a Ctx) -> Vec<(&'static str, Box<CheckFn<'a>>)> {
+	match ctx.property {
+		"C01" => c01::tape_checks(ctx),
+		"C02" => c02::tape_checks(ctx),
+		"C03" => c03::tape_checks(ctx),
+		_ => vec![],
+	}
+}
+
+fn run_property(ctx: &Ctx) -> Option<(Level, Report)> {
+	Some(match ctx.property {
+		"C01" => c01::run(ctx),
+		"C02" => c02::run(ctx),
+		"C03" => c03::run(ctx),
+		_ => return None,
+	})
+}
+
+fn replay_direct(ctx: &Ctx, doc: &Value) -> Option<Result<(), Violation>> {
+	match ctx.property {
+		"C03" => c03::replay_direct(ctx, doc),
+		_ => None,
+	}
+}
+
+fn replay(ctx: &Ctx, path: &str) -> i32 {
+	let text = match std::fs::read_to_string(path) {
+		Ok(t) => t,
+		Err(e) => {
+			eprintln!("cannot read replay {path}: {e}");
+			return 2;
+		},
+	};
+	let doc: Value = match psc_model::serde_json::from_str(&text) {
+		Ok(d) => d,
+		Err(e) => {
+			eprintln!("replay {path} is not JSON: {e}");
+			return 2;
+		},
+	};
+	let result = if doc["kind"] == "tape" {
+		let name = doc["check"].as_str().unwrap_or("");
+		let tape = unhex(doc["tape"].as_str().unwrap_or(""));
+		let checks = tape_checks(ctx);
+		let Some((_, check)) = checks.iter().find(|(n, _)| *n == name) else {
+			eprintln!("replay: property {} has no tape check named {name:?}", ctx.property);
+			return 2;
+		};
+		let mut st = Stats::default();
+		match run_tape(&**check, &tape, &mut st) {
+			Ok(r) => r,
+			Err(p) => {
+				eprintln!("INCONCLUSIVE replay panicked in the harness: {p}");
+				return 2;
+			},
+		}
+	} else {
+		match replay_direct(ctx, &doc) {
+			Some(r) => r,
+			None => {
+				eprintln!("replay: unsupported replay kind {} for {}", doc["kind"], ctx.property);
+				return 2;
+			},
+		}
+	};
+	match result {
+		Ok(()) => {
+			println!("replay {path}: property held on this case");
+			0
+		},
+		Err(v) => {
+			println!("VIOLATION property={} replay={path}", ctx.property);
+			println!("signature {}", v.sig);
+			println!("{}", v.detail);
+			1
+		},
+	}
+}
+
+fn main() {
+	let args: Vec<String> = std::env::args().collect();
+	if args.len() < 3 {
+		eprintln!("usage: psc-verif <Cxx> quick|thorough | psc-verif <Cxx> --replay <file>");
+		std::process::exit(2);
+	}
+	let property: &'static str = Box::leak(args[1].clone().into_boxed_str());
+	install_quiet_panic_hook();
+	self_test_or_exit();
+	let code = if args[2] == "--replay" {
+		let ctx = Ctx::new(property, Tier::Quick);
+		replay(&ctx, args.get(3).map(|s| s.as_str()).unwrap_or(""))
+	} else {
+		let tier = match args[2].as_str() {
+			"quick" => Tier::Quick,
+			"thorough" => Tier::Thorough,
+			other => {
+				eprintln!("unknown tier {other}");
+				std::process::exit(2);
+			},
+		};
+		let ctx = Ctx::new(property, tier);
+		match run_property(&ctx) {
+			Some((level, report)) => finish(&ctx, level, report),
+			None => {
+				eprintln!("unknown property {property}");
+				2
+			},
+		}
+	};
+	std::process::exit(code);
+}
